@@ -2,7 +2,6 @@ package fastsyncrig
 
 import (
 	"fmt"
-	"os"
 	"runtime"
 	"runtime/debug"
 	"sort"
@@ -51,7 +50,6 @@ type attack struct {
 	gkind int    // garbage flavour
 	wh    uint64 // wrong-height: the height served instead
 	cache map[uint64]*blk
-	fired bool
 }
 
 type peerSim struct {
@@ -61,8 +59,10 @@ type peerSim struct {
 	have       uint64 // honest: serves canon[1..have]
 	stub       *simnode.Peer
 	connected  bool
-	announced  bool // believed to be in the node's pool
-	claim      uint64
+	announced  bool   // believed to be in the node's pool
+	claim      uint64 // what the node was last told
+	rawClaim   uint64 // what the peer would tell without the window
+	raising    bool   // a follow-up status is on its way
 	huge       bool
 	att        *attack
 	sessions   int
@@ -126,6 +126,9 @@ type sim struct {
 func (s *sim) now() time.Duration { return time.Since(s.start) }
 
 var traceCap = 60
+
+// pollStep is how often the simulator looks at what the node sent.
+var pollStep = 100 * time.Millisecond
 
 func (s *sim) note(format string, a ...interface{}) {
 	if len(s.trace) < traceCap {
@@ -511,6 +514,9 @@ func (s *sim) settle() bool {
 			continue // a message to a peer that is gone
 		}
 		if i > 0 && m == prev {
+			if traceCap > 60 {
+				s.note("DUPLICATE request %s %d", p.id, m.h)
+			}
 			continue // the same request twice at one instant: one answer
 		}
 		prev = m
@@ -575,6 +581,7 @@ func (s *sim) onStopped(st stopRec) {
 func (s *sim) afterDisconnect(p *peerSim) {
 	p.connected = false
 	p.announced = false
+	p.raising = false
 	s.lastTopo = s.now()
 	if p.gone {
 		return
@@ -605,6 +612,31 @@ func (s *sim) disconnect(p *peerSim, why string) {
 	s.afterDisconnect(p)
 }
 
+// claimWindow bounds how far above the node's next height a peer's claim may
+// be. After a peer has been removed, every requester it served keeps a stale
+// redo signal (the pool calls removePeer two or three times in a row; the
+// first signal is handed to the parked requester directly, the second one
+// stays in the channel's buffer): its next pick is immediately redone and
+// counts twice against the 30 pending requests a peer may have. With more
+// than 15 heights on offer the pool then serves the requesters in the order
+// their timers happen to fire, which is not a function of the tape. A peer
+// with a longer chain therefore tells its height in steps, as a node that is
+// itself still growing would.
+const claimWindow = 11
+
+// raiseClaims lets peers whose chain is longer than what they last told
+// announce more once the node has come within 4 blocks of it.
+func (s *sim) raiseClaims() {
+	h0 := s.storeHeight() + 1
+	for _, p := range s.peers {
+		if !p.connected || !p.announced || p.raising || p.rawClaim <= p.claim || p.claim+1 > h0+claimWindow-4 {
+			continue
+		}
+		p.raising = true
+		s.schedule(&event{at: s.now() + s.latency(p), kind: evStatus, peer: p.idx, sess: p.sessions, claim: p.rawClaim})
+	}
+}
+
 // releaseHeld re-queues the held-back status messages the topology gate now lets through.
 func (s *sim) releaseHeld() {
 	if len(s.held) == 0 {
@@ -616,7 +648,11 @@ func (s *sim) releaseHeld() {
 		if !p.connected || e.sess != p.sessions {
 			continue
 		}
-		if s.mayAnnounceQuiet(p, e.claim) {
+		claim := e.claim
+		if lim := s.storeHeight() + 1 + claimWindow; claim > lim {
+			claim = lim
+		}
+		if s.mayAnnounceQuiet(p, claim) {
 			e.at = s.now()
 			s.schedule(e)
 			continue
@@ -641,7 +677,13 @@ func (s *sim) deliver(e *event) bool {
 		if !p.connected || e.sess != p.sessions {
 			return true
 		}
-		if !s.mayAnnounce(p, e.claim) {
+		// what the peer tells is its height cut to claimWindow above the node's
+		// next height (see claimWindow); the rest follows as the node advances
+		claim := e.claim
+		if lim := s.storeHeight() + 1 + claimWindow; claim > lim {
+			claim = lim
+		}
+		if !s.mayAnnounce(p, claim) {
 			// kept until the topology allows it (see releaseHeld); a newer
 			// status of the same peer replaces an older one
 			s.c.Probe("status-held-back")
@@ -654,14 +696,14 @@ func (s *sim) deliver(e *event) bool {
 			s.held = append(kept, e)
 			return true
 		}
-		if !p.announced || e.claim > p.claim {
+		if !p.announced || claim > p.claim {
 			s.lastTopo = s.now()
 		}
-		p.announced, p.claim = true, e.claim
+		p.announced, p.claim, p.rawClaim, p.raising = true, claim, e.claim, false
 		s.c.Event(1)
 		s.class("status")
-		s.note("%s claims height %d", p.id, e.claim)
-		s.receive(p, encodeHeightMsg(pfxStatusResponse, e.claim))
+		s.note("%s claims height %d", p.id, claim)
+		s.receive(p, encodeHeightMsg(pfxStatusResponse, claim))
 	case evAsk:
 		if !p.connected || e.sess != p.sessions {
 			return true
@@ -719,7 +761,7 @@ func (s *sim) run(until time.Duration, target uint64) bool {
 			}
 			continue
 		}
-		next := now + 100*time.Millisecond
+		next := now + pollStep
 		if len(s.events) > 0 && s.events[0].at < next {
 			next = s.events[0].at
 		}
@@ -732,6 +774,7 @@ func (s *sim) run(until time.Duration, target uint64) bool {
 			return false
 		}
 		s.releaseHeld()
+		s.raiseClaims()
 	}
 }
 
@@ -839,9 +882,6 @@ func startNode(c *kernel.Ctx, w *world) (s *sim, stop func(), err error) {
 	s.sw.AddReactor("BLOCKCHAIN", s.bcr)
 	// the hand-over to consensus is taken at the end of the run (see finish)
 	s.bcr.KeepFastSync(true)
-	if os.Getenv("FS_DEBUG_EPOCH") != "" {
-		fmt.Printf("EPOCH seed=%d virtual-now=%v\n", c.Tape.Seed(), time.Now().UnixNano()-946684800e9)
-	}
 	s.start = time.Now()
 	if err = s.bcr.Start(); err != nil {
 		closeReplica(s.syncer)
@@ -1052,3 +1092,6 @@ func pinProcs() func() {
 		runtime.GOMAXPROCS(prev)
 	}
 }
+
+// synctestWait is synctest.Wait for the tests of this package.
+func synctestWait() { synctest.Wait() }
